@@ -374,7 +374,7 @@ pub fn reads_after_crash_restart(case: &SchedCase, rr: &sched::RunRec, r: &mut R
             fail = fail.or(check(&st, &m, "after recovery + drain"));
             // a term above every term the history ever used: the new ids are above every removed id,
             // so the D7 pattern (re-append at or below a removed id) cannot arise here
-            let top_term = rr.recs.iter().filter_map(|r| if let crate::model::Rec::Append(id, _) = r { Some(id.0) } else { None }).max().unwrap_or(0) + 1;
+            let top_term = rr.recs.iter().map(|r| r.max_term()).max().unwrap_or(0) + 1;
             let mut next = match m.st.last {
                 Some(l) => (top_term.max(l.0 + 1), l.1 + 1),
                 None => (top_term, 0),
